@@ -29,6 +29,7 @@ EXPLANATION += ' (R10, round 8) also the RPC handlers doc_set (one local insert 
 EXPLANATION += ' Round 9: R11 also carries the destructor rows of C06.R4 (a capability imported just before the store is dropped survives the reopen).'
 EXPLANATION += ' (R14, round 11) who-may-construct: ReplicaInfo is built only by Store::load_replica_info - no memo of an earlier open anywhere.'
 EXPLANATION += ' (R15, round 12) = C03.R13: the id a write secret is stored and looked up under is the bytes of its own public key.'
+EXPLANATION += ' (R16, round 12) = C14.R6: a document is not removed (and re-imported read-only) under a holder whose open replica still carries the write secret.'
 
 
 def r1(ctx):
@@ -601,6 +602,13 @@ def r15(ctx):
     keyalg.check(ctx, "C07.R15")
     ctx.floor("C07.R15", 40)
 
+def r16(ctx):
+    """"a replica imported with read-only capability never produces a locally authored entry": the capability an open replica signs
+    with is the one loaded when it was opened (R13 / R14), so a document must not be removed - and re-imported with another
+    capability - under a holder that still has it open: the drop handler evaluated against the handle count (C14.R6)"""
+    from . import C14
+    ctx.share("C07.R16", C14.r6, "C14.R6", floor=4)
+
 def run(ctx):
     ctx.run_rule("C07.R1", r1)
     ctx.run_rule("C07.R2", r2)
@@ -617,3 +625,4 @@ def run(ctx):
     ctx.run_rule("C07.R13", r13)
     ctx.run_rule("C07.R14", r14)
     ctx.run_rule("C07.R15", r15)
+    ctx.run_rule("C07.R16", r16)
